@@ -85,7 +85,8 @@ theorem key_roundtrip' (k : KeyInts) (rest : ByteStr)
   simp only [List.length_cons, List.length_nil] at this
   unfold KeyInts.unserialize KeyInts.serialize
   rw [this]
-  simp [Nat.mod_eq_of_lt, l1, l2, l3, l4]
+  have hp0 : k.p ≠ 0 := by omega
+  simp [Nat.mod_eq_of_lt, l1, l2, l3, l4, hp0]
 
 theorem priv_roundtrip' (k : KeyInts) (n t1 : Nat)
     (hp : Packable k.p) (h1 : Packable k.ga) (h2 : Packable k.gb) (h3 : Packable k.ha) (h4 : Packable k.hb)
@@ -101,7 +102,8 @@ theorem priv_roundtrip' (k : KeyInts) (n t1 : Nat)
   have e : packMany [k.p, k.ga, k.gb, k.ha, k.hb] ++ packMany [n, t1] = packMany [k.p, k.ga, k.gb, k.ha, k.hb, n, t1] := by
     simp [packMany]
   rw [e, this]
-  simp [Nat.mod_eq_of_lt, l1, l2, l3, l4]
+  have hp0 : k.p ≠ 0 := by omega
+  simp [Nat.mod_eq_of_lt, l1, l2, l3, l4, hp0]
 
 theorem numToBytesAux_length (k : Nat) : ∀ (n : Nat) (acc : ByteStr), n < 256 ^ (k + 1) →
     (numToBytesAux n acc).length ≤ acc.length + k + 1 := by
